@@ -113,6 +113,21 @@ def gen_spec(rng, size=None, allow=None, lumi_cfg=True):
                     s['modifiers'] = [m for m in s['modifiers'] if m['type'] != 'staterror']
                 if should and not has:
                     s['modifiers'].append({'name': nm, 'type': 'staterror', 'data': [dy(rng, 0.25, 3.0) for _ in s['data']]})
+    # a staterror carried by several samples of a channel where one of them has an empty bin but a non-zero uncertainty
+    if rng.random() < 0.35:
+        for c in channels:
+            carriers = [s for s in c['samples'] if any(m['type'] == 'staterror' for m in s['modifiers'])]
+            if len(carriers) >= 2:
+                victim = rng.choice(carriers)
+                b = rng.randrange(len(victim['data']))
+                if all(s['data'][b] > 0 for s in carriers if s is not victim):
+                    victim['data'][b] = 0.0
+                    for m in victim['modifiers']:
+                        if m['type'] == 'staterror':
+                            m['data'][b] = dy(rng, 0.5, 3.0)
+                        if m['type'] == 'histosys':
+                            m['data']['lo_data'][b] = 0.0
+                break
     spec = {'channels': channels, 'parameters': []}
     if not any(s['modifiers'] for c in channels for s in c['samples']):
         channels[0]['samples'][0]['modifiers'].append({'name': 'mu', 'type': 'normfactor', 'data': None})
@@ -142,6 +157,13 @@ def gen_spec(rng, size=None, allow=None, lumi_cfg=True):
                 p['factors'] = [dy(rng, 1, 50) for _ in range(n)]
             if len(p) > 1:
                 params.append(p)
+    # release (fixed: false) bin-wise parameters whose default flags fix some component (zero yield / zero uncertainty bins)
+    for c in channels:
+        for smp in c['samples']:
+            for m in smp['modifiers']:
+                if m['type'] in ('shapesys', 'staterror') and any(u == 0 or d == 0 for u, d in zip(m['data'], smp['data'])) \
+                        and rng.random() < 0.5 and not any(p['name'] == m['name'] for p in params):
+                    params.append({'name': m['name'], 'fixed': rng.random() < 0.8 and False})
     rng.shuffle(params)
     spec['parameters'] = params
     scalars = [nm for nm, (kind, n) in info.items() if kind in ('normfactor',)]
